@@ -1,6 +1,7 @@
 import GomlVerif.Lemmas.GoCompScope
 import GomlVerif.Lemmas.GoCompLink
 import GomlVerif.Model.GoTyping
+import GomlVerif.Model.GoFragTyped
 /-!
 T2, typing half: the statements `GoCompile` emits for a stage (a) function of the fragment (`stdFn`: scalars,
 operators, calls, `let`, `if`, `while`) obey the typing rules of `Go.check` — in the form of its total mirror
@@ -16,17 +17,109 @@ open Goml.Dce (Names)
 
 attribute [local irreducible] Goml.GoCompile.vn Goml.GoCompile.gid Goml.GoCompile.rn
 
-/-! ### types of stage (a) -/
+/-! ### Go types up to `normT` -/
 
-theorem stdTy_scalar {t : Ty} (h : stdTy t = true) : scalarTy t = true := by
-  cases t <;> simp [stdTy] at h <;> rfl
+mutual
+theorem tyBeqG_refl : ∀ t : GTy, tyBeqG t t = true
+  | .void | .unit | .bool | .string => by simp [tyBeqG]
+  | .int _ _ | .float _ | .name _ => by simp [tyBeqG]
+  | .struct n fs => by simp [tyBeqG, fieldsBeqG_refl fs]
+  | .ptr e => by simp [tyBeqG, tyBeqG_refl e]
+  | .func ps r => by simp [tyBeqG, tysBeqG_refl ps, tyBeqG_refl r]
+  | .array l e => by simp [tyBeqG, tyBeqG_refl e]
+  | .slice e => by simp [tyBeqG, tyBeqG_refl e]
+theorem tysBeqG_refl : ∀ ts : List GTy, tysBeqG ts ts = true
+  | [] => by simp [tysBeqG]
+  | t :: ts => by simp [tysBeqG, tyBeqG_refl t, tysBeqG_refl ts]
+theorem fieldsBeqG_refl : ∀ fs : List (String × GTy), fieldsBeqG fs fs = true
+  | [] => by simp [fieldsBeqG]
+  | (f, t) :: fs => by simp [fieldsBeqG, tyBeqG_refl t, fieldsBeqG_refl fs]
+end
 
-theorem goTy_std {t : Ty} (h : stdTy t = true) :
-    normT (goTy t) = goTy t ∧ tyEqT (goTy t) (goTy t) = true ∧ tyEqT (goTy t) .void = false := by
-  cases t <;> simp [stdTy] at h <;> simp [goTy, normT, tyEqT, tyBeqG]
+mutual
+/-- the written-out equality decides equality -/
+theorem tyBeqG_eq : ∀ (a b : GTy), tyBeqG a b = true → a = b
+  | .void, b, h => by cases b <;> simp [tyBeqG] at h <;> rfl
+  | .unit, b, h => by cases b <;> simp [tyBeqG] at h <;> rfl
+  | .bool, b, h => by cases b <;> simp [tyBeqG] at h <;> rfl
+  | .string, b, h => by cases b <;> simp [tyBeqG] at h <;> rfl
+  | .int _ _, b, h => by cases b <;> simp [tyBeqG] at h; simp [h]
+  | .float _, b, h => by cases b <;> simp [tyBeqG] at h; simp [h]
+  | .name _, b, h => by cases b <;> simp [tyBeqG] at h; simp [h]
+  | .struct n fs, b, h => by
+    cases b <;> simp [tyBeqG] at h
+    rename_i n' fs'; rw [h.1, fieldsBeqG_eq fs fs' h.2]
+  | .ptr e, b, h => by
+    cases b <;> simp [tyBeqG] at h
+    rename_i e'; rw [tyBeqG_eq e e' h]
+  | .func ps r, b, h => by
+    cases b <;> simp [tyBeqG] at h
+    rename_i ps' r'; rw [tysBeqG_eq ps ps' h.1, tyBeqG_eq r r' h.2]
+  | .array l e, b, h => by
+    cases b <;> simp [tyBeqG] at h
+    rename_i l' e'; rw [h.1, tyBeqG_eq e e' h.2]
+  | .slice e, b, h => by
+    cases b <;> simp [tyBeqG] at h
+    rename_i e'; rw [tyBeqG_eq e e' h]
+theorem tysBeqG_eq : ∀ (as bs : List GTy), tysBeqG as bs = true → as = bs
+  | [], bs, h => by cases bs <;> simp [tysBeqG] at h; rfl
+  | a :: as, bs, h => by
+    cases bs <;> simp [tysBeqG] at h
+    rename_i b bs; rw [tyBeqG_eq a b h.1, tysBeqG_eq as bs h.2]
+theorem fieldsBeqG_eq : ∀ (as bs : List (String × GTy)), fieldsBeqG as bs = true → as = bs
+  | [], bs, h => by cases bs <;> simp [fieldsBeqG] at h; rfl
+  | (f, a) :: as, bs, h => by
+    cases bs <;> simp [fieldsBeqG] at h
+    rename_i p bs; obtain ⟨g, b⟩ := p
+    simp [fieldsBeqG] at h
+    rw [h.1.1, tyBeqG_eq a b h.1.2, fieldsBeqG_eq as bs h.2]
+end
 
-theorem assignable_std (c : TCtx) {t : Ty} (h : stdTy t = true) : assignableT c (goTy t) (goTy t) = true := by
-  simp [assignableT, (goTy_std h).2.1]
+mutual
+theorem normT_idem : ∀ t : GTy, normT (normT t) = normT t
+  | .void | .unit | .bool | .string | .int _ _ | .float _ | .name _ | .struct _ _ => by simp [normT]
+  | .ptr e => by simp [normT, normT_idem e]
+  | .func ps r => by simp [normT, normTs_idem ps, normT_idem r]
+  | .array l e => by simp [normT, normT_idem e]
+  | .slice e => by simp [normT, normT_idem e]
+theorem normTs_idem : ∀ ts : List GTy, normTs (normTs ts) = normTs ts
+  | [] => by simp [normTs]
+  | t :: ts => by simp [normTs, normT_idem t, normTs_idem ts]
+end
+
+theorem tyEqT_of_norm {a b : GTy} (h : normT a = normT b) : tyEqT a b = true := by
+  simp only [tyEqT, h, tyBeqG_refl]
+
+/-- a value whose type is the declared type up to `normT` may be assigned -/
+theorem assignable_of_norm (c : TCtx) {t v : GTy} (h : normT v = normT t) : assignableT c t v = true := by
+  simp [assignableT, tyEqT_of_norm h.symm]
+
+theorem argsAssignable_norm (c : TCtx) : ∀ ts : List GTy, argsAssignable c (normTs ts) ts = true
+  | [] => by simp [normTs, argsAssignable]
+  | t :: ts => by
+    simp only [normTs, argsAssignable, assignable_of_norm c (normT_idem t).symm, argsAssignable_norm c ts, Bool.and_self]
+
+theorem normT_func (ps : List GTy) (r : GTy) : normT (.func ps r) = .func (normTs ps) (normT r) := by simp [normT]
+
+theorem goTys_map : ∀ l : List Ty, goTys l = l.map goTy
+  | [] => by simp [goTys]
+  | a :: l => by simp [goTys, goTys_map l]
+
+/-! ### the types of the typing half -/
+
+/-- `e` has the Go type of the ANF type `t`, up to `normT` (the result type of a call is the normalised one) -/
+def TyIs (c : TCtx) (s : Scp) (e : GExpr) (t : Ty) : Prop := ∃ t', tyOfT c s e = .ok t' ∧ normT t' = normT (goTy t)
+
+theorem TyIs.exact {c : TCtx} {s : Scp} {e : GExpr} {t : Ty} (h : tyOfT c s e = .ok (goTy t)) : TyIs c s e t := ⟨_, h, rfl⟩
+
+theorem goTy_not_void {t : Ty} (h : stdTy t = true) : normT (goTy t) ≠ .void := by
+  cases t <;> simp [stdTy] at h <;> simp [goTy, normT]
+
+theorem tyBeqG_void {x : GTy} (h : x ≠ .void) : tyBeqG x .void = false := by
+  cases x <;> simp [tyBeqG] at h ⊢
+
+theorem not_void_of_norm {t : Ty} (h : stdTy t = true) {te : GTy} (hn : normT te = normT (goTy t)) : tyEqT te .void = false := by
+  simp only [tyEqT, hn]; exact tyBeqG_void (goTy_not_void h)
 
 theorem stdInt_width {b : Nat} {s : Bool} (h : stdTy (.int b s) = true) : b = 8 ∨ b = 16 ∨ b = 32 ∨ b = 64 := by
   simp [stdTy] at h; omega
@@ -77,28 +170,69 @@ def TgtTy (m : Mode) (s : Scp) (ty : Ty) : Prop :=
   | .effect => True
   | .assign t => lookupS s (gid t) = some (goTy ty)
 
-/-- what the typing context knows of the callees: the functions of `G` and the printing builtins, under their Go
-    names, with the Go types of their signatures -/
-structure TLink (file : AFile) (G : List String) (c : TCtx) : Prop where
+/-- what the typing context knows of the callees — the functions of `G` and the printing builtins, under their Go
+    names, with the Go types of their signatures — and of the admitted struct types: declared with the Go types of
+    their fields -/
+structure TLink (env : Env) (file : AFile) (G : List String) (c : TCtx) : Prop where
   fn : ∀ g, g ∈ file → g.name ∈ G → isEntry g.name = false → rn g.name = g.name →
     c.findFunc (vn g.name) = some (g.params.map (fun p => goTy p.2), goTy g.ret)
   builtin : ∀ b ps r, b ∈ builtinNames → builtinSig b = some (ps, r) → c.findFunc b = some (ps.map goTy, goTy r)
+  closed : structsClosed env = true
+  structs : ∀ n d, n ∈ goodStructs env → env.getStruct n = some d →
+    ∃ ms, c.findStruct (gid n) = some (d.fields.map (fun f => (gid f.1, goTy f.2)), ms)
+  refs : ∀ e, refTyOK env file (.ref e) = true →
+    c.findFunc (helperFnName "ref" (.ref e)) = some ([goTy e], .ptr (.name (refStructName e))) ∧
+    c.findFunc (helperFnName "ref_get" (.ref e)) = some ([.ptr (.name (refStructName e))], goTy e) ∧
+    c.findFunc (helperFnName "ref_set" (.ref e)) = some ([.ptr (.name (refStructName e)), goTy e], .unit)
+  arrs : ∀ len e, arrTyOK env file (.array len e) = true →
+    c.findFunc (helperFnName "array_get" (.array len e)) = some ([.array len (goTy e), .int 32 true], goTy e) ∧
+    c.findFunc (helperFnName "array_set" (.array len e)) =
+      some ([.array len (goTy e), .int 32 true, goTy e], .array len (goTy e))
+  tups : ∀ ts, tupleTyOK env file (.tuple ts) = true →
+    (fieldNames 0 ts.length).Nodup ∧ ∃ ms, c.findStruct (goTypeNameFor (.tuple ts)) = some (goTyFields 0 ts, ms)
 
 /-! ### expressions -/
 
-theorem typed_imm {env : Env} {c : TCtx} {s : Scp} {Γ : Ctx} {i : Imm} (hi : immOK env file G Γ i = true) (hs : stdImm i = true)
-    (hsc : TScp s Γ) : tyOfT c s (compileImm env i) = .ok (goTy i.ty) := by
+/-- a function of `fnSigs` (usable as a value) is known to the typing context at its signature -/
+theorem fnName_sig {env : Env} {file : AFile} {G : List String} {c : TCtx} (hl : TLink env file G c) {e : String × List Ty × Ty}
+    (he : e ∈ fnSigs file G) : c.findFunc (vn e.1) = some (e.2.1.map goTy, goTy e.2.2) := by
+  obtain ⟨name, ps, r⟩ := e
+  rcases fnSigs_spec he with ⟨g, hg, hn, hG, hent, hrn, hps, hr⟩ | ⟨hb, hsig⟩
+  · subst hn; subst hps; subst hr
+    have := hl.fn g hg hG hent hrn
+    simpa [List.map_map, Function.comp_def] using this
+  · simp only []
+    rw [vn_builtin hb]; exact hl.builtin name ps r hb hsig
+
+theorem typed_imm {env : Env} {file : AFile} {G : List String} {c : TCtx} {s : Scp} {Γ : Ctx} {D : Names} {cs : List String} {i : Imm}
+    (hi : immOK env file G Γ i = true) (hs : stdImm i = true) (hsc : TScp s Γ) (hctx : SCtx file G D (skeys s) Γ cs)
+    (hl : TLink env file G c) : tyOfT c s (compileImm env i) = .ok (goTy i.ty) := by
   cases i with
   | var x ty =>
     simp only [immOK] at hi
-    cases hl : lookupTy Γ x with
+    cases hlk : lookupTy Γ x with
     | none =>
-      rw [hl] at hi; simp only [stdImm] at hs
-      cases ty <;> simp [fnValOK, stdTy] at hi hs
+      rw [hlk] at hi; simp only at hi
+      cases ty <;> simp only [fnValOK] at hi <;> try (cases hi; done)
+      rename_i ps r
+      simp only [Bool.and_eq_true] at hi
+      obtain ⟨_, hcase⟩ := hi
+      cases hf : (fnSigs file G).find? (·.1 == x) with
+      | none => rw [hf] at hcase; cases hcase
+      | some e =>
+        rw [hf] at hcase; simp only [Bool.and_eq_true] at hcase
+        have he : e ∈ fnSigs file G := List.mem_of_find?_eq_some hf
+        have hex : e.1 = x := by have := List.find?_some hf; simpa using this
+        have hps := scalarEqs_eq hcase.1
+        have hr := scalarEq_eq hcase.2
+        have hfn := fnName_sig hl he
+        have hnin : ¬ vn e.1 ∈ skeys s := fun hk => (hctx.fns e he).1 (hctx.scD _ hk)
+        rw [hex] at hfn hnin
+        simp only [compileImm, tyOfT, lookupS_none hnin, hfn, Imm.ty, goTy, goTys_map, hps, hr]
     | some t =>
-      rw [hl] at hi; simp only at hi
+      rw [hlk] at hi; simp only at hi
       have := scalarEq_eq hi; subst this
-      simp only [compileImm, tyOfT, hsc x t hl, Imm.ty]
+      simp only [compileImm, tyOfT, hsc x t hlk, Imm.ty]
   | prim p ty =>
     simp only [immOK] at hi
     simp only [stdImm] at hs
@@ -115,9 +249,10 @@ theorem typed_imm {env : Env} {c : TCtx} {s : Scp} {Γ : Ctx} {i : Imm} (hi : im
     | float b r => cases ty <;> simp [okPrim] at hi
   | tag idx ty => simp [stdImm] at hs
 
-theorem typed_imms {env : Env} {c : TCtx} {s : Scp} {Γ : Ctx} (hsc : TScp s Γ) : ∀ {args : List Imm} {tys : List Ty},
+theorem typed_imms {env : Env} {file : AFile} {G : List String} {c : TCtx} {s : Scp} {Γ : Ctx} {D : Names} {cs : List String}
+    (hsc : TScp s Γ) (hctx : SCtx file G D (skeys s) Γ cs) (hl : TLink env file G c) : ∀ {args : List Imm} {tys : List Ty},
     argsOK env file G Γ args tys = true → args.all stdImm = true →
-    tysOfT c s (compileImms env args) = .ok (tys.map goTy) ∧ tys.all stdTy = true
+    tysOfT c s (compileImms env args) = .ok (tys.map goTy)
   | [], [], _, _ => by simp [compileImms, tysOfT]
   | [], _ :: _, h, _ => by simp [argsOK] at h
   | _ :: _, [], h, _ => by simp [argsOK] at h
@@ -126,37 +261,250 @@ theorem typed_imms {env : Env} {c : TCtx} {s : Scp} {Γ : Ctx} (hsc : TScp s Γ)
     simp only [List.all_cons, Bool.and_eq_true] at hs
     obtain ⟨⟨ha, hta⟩, has⟩ := h
     have hty := scalarEq_eq hta
-    have h1 := typed_imm (c := c) ha hs.1 hsc
-    obtain ⟨h2, h3⟩ := typed_imms (c := c) hsc has hs.2
-    have hstd : stdTy t = true := by
-      rw [← hty]; cases a <;> simp [stdImm] at hs <;> simp [Imm.ty, hs.1]
+    have h1 := typed_imm (c := c) ha hs.1 hsc hctx hl
+    have h2 := typed_imms (c := c) hsc hctx hl has hs.2
     simp only [compileImms, List.map_cons] at h2 ⊢
-    simp [tysOfT, h1, h2, hty, hstd, h3]
+    simp [tysOfT, h1, h2, hty]
 
-theorem argsAssignable_std (c : TCtx) : ∀ {tys : List Ty}, tys.all stdTy = true →
-    argsAssignable c (normTs (tys.map goTy)) (tys.map goTy) = true
-  | [], _ => by simp [normTs, argsAssignable]
-  | t :: ts, h => by
-    simp only [List.all_cons, Bool.and_eq_true] at h
-    simp only [List.map_cons, normTs, argsAssignable, (goTy_std h.1).1, assignable_std c h.1, argsAssignable_std c h.2, Bool.and_self]
+/-- the field `f` of a declaration whose field names are pairwise distinct -/
+theorem find_field_nodup : ∀ {l : List (String × GTy)} {f : String} {t : GTy}, (l.map (·.1)).Nodup → (f, t) ∈ l →
+    l.find? (·.1 == f) = some (f, t)
+  | [], _, _, _, h => by cases h
+  | (g, u) :: l, f, t, hnd, h => by
+    simp only [List.map_cons, List.nodup_cons] at hnd
+    rcases List.mem_cons.mp h with h | h
+    · injection h with h1 h2; subst h1; subst h2; simp [List.find?_cons]
+    · have hne : g ≠ f := fun e => hnd.1 (e ▸ List.mem_map_of_mem (f := (·.1)) h)
+      have : (g == f) = false := by simpa using hne
+      simp only [List.find?_cons, this]
+      exact find_field_nodup hnd.2 h
 
-theorem normT_func (ps : List GTy) (r : GTy) : normT (.func ps r) = .func (normTs ps) (normT r) := by simp [normT]
+/-- the fields of a struct literal against the declaration of the struct -/
+theorem fields_struct_ok {env : Env} {file : AFile} {G : List String} {c : TCtx} {s : Scp} {Γ : Ctx} {D : Names} {cs : List String}
+    (hsc : TScp s Γ) (hctx : SCtx file G D (skeys s) Γ cs) (hl : TLink env file G c) (decl : List (String × GTy))
+    (hnd : (decl.map (·.1)).Nodup) : ∀ (fs : List (String × Ty)) (args : List Imm),
+    argsOK env file G Γ args (fs.map (·.2)) = true → args.all stdImm = true → (∀ p, p ∈ fs → (gid p.1, goTy p.2) ∈ decl) →
+    fieldsOKT c s decl (structFieldsOf fs (compileImms env args)) = .ok ()
+  | [], [], _, _, _ => by simp [structFieldsOf, compileImms, fieldsOKT]
+  | [], _ :: _, h, _, _ => by simp [argsOK] at h
+  | _ :: _, [], h, _, _ => by simp [argsOK] at h
+  | p :: fs, a :: as, h, hs, hmem => by
+    simp only [List.map_cons, argsOK, Bool.and_eq_true] at h
+    simp only [List.all_cons, Bool.and_eq_true] at hs
+    obtain ⟨⟨ha, hta⟩, has⟩ := h
+    have hty := scalarEq_eq hta
+    have h1 := typed_imm (c := c) ha hs.1 hsc hctx hl
+    have h2 := fields_struct_ok hsc hctx hl decl hnd fs as has hs.2 (fun q hq => hmem q (List.mem_cons_of_mem _ hq))
+    have hf := find_field_nodup hnd (hmem p List.mem_cons_self)
+    simp only [structFieldsOf, compileImms, List.map_cons, List.zip_cons_cons] at h2 ⊢
+    simp only [fieldsOKT, h1, hf, hty, assignable_of_norm c rfl, R.guard, if_true, h2, R.both]
 
-/-- a simple `CExpr` of stage (a) compiled by `compile_cexpr` has the Go type of its annotation -/
+/-- a call of a top-level function of the file by its name -/
+theorem tyOf_call_fn {c : TCtx} {s : Scp} {h : String} {fty t0 : GTy} {cargs : List GExpr} {ps ts : List GTy} {r : GTy}
+    (hlook : lookupS s h = none) (hfn : c.findFunc h = some (ps, r)) (hts : tysOfT c s cargs = .ok ts)
+    (hargs : argsAssignable c (normTs ps) ts = true) : tyOfT c s (.call t0 (.var h fty) cargs) = .ok (normT r) := by
+  have hcond : ((lookupS s h).isNone && (c.findFunc h).isNone) = false := by simp [hfn]
+  simp only [tyOfT, hcond, Bool.false_eq_true, if_false, hlook, hfn, hts, callOfT, normT_func, hargs, if_true]
+  simp
+
+theorem argsOK_length {env : Env} {file : AFile} {G : List String} {Γ : Ctx} : ∀ {args : List Imm} {tys : List Ty},
+    argsOK env file G Γ args tys = true → args.length = tys.length
+  | [], [], _ => rfl
+  | [], _ :: _, h => by simp [argsOK] at h
+  | _ :: _, [], h => by simp [argsOK] at h
+  | a :: as, t :: ts, h => by
+    simp only [argsOK, Bool.and_eq_true] at h
+    simp [argsOK_length h.2]
+
+/-- the reference helpers `ref__T`, `ref_get__T`, `ref_set__T` at their signatures -/
+theorem typed_refcall {env : Env} {file : AFile} {G : List String} {c : TCtx} {D : Names} {s : Scp} {Γ : Ctx}
+    {name : String} {fty : Ty} {args : List Imm} {ty : Ty}
+    (hfrag : refCallOK env file G Γ (.var name fty) args ty = true) (hargsS : args.all stdImm = true) (hsc : TScp s Γ)
+    (hctx : SCtx file G D (skeys s) Γ (calleesC (Γ.map (·.1)) (.call (.var name fty) args ty))) (hl : TLink env file G c) :
+    TyIs c s (compileCExpr env (.call (.var name fty) args ty)) ty := by
+  simp only [refCallOK, Bool.and_eq_true, beq_iff_eq] at hfrag
+  obtain ⟨⟨hloc, hrn⟩, hcase⟩ := hfrag
+  have hnone : lookupTy Γ name = none := by
+    cases hx : lookupTy Γ name with
+    | none => rfl
+    | some p => rw [hx] at hloc; simp at hloc
+  have hnb := lookupTy_none_nomem hnone
+  have hnin : ∀ h, h ∈ calleesC (Γ.map (·.1)) (.call (.var name fty) args ty) → lookupS s h = none :=
+    fun h hh => lookupS_none (fun hk => (hctx.cal h hh).1 (hctx.scD _ hk))
+  by_cases h1 : name = "ref"
+  · subst h1
+    simp only [beq_self_eq_true, if_true] at hcase
+    cases ty with
+    | ref e =>
+      simp only [Bool.and_eq_true] at hcase
+      obtain ⟨hargs, hrt⟩ := hcase
+      have hshape : compileCExpr env (.call (.var "ref" fty) args (.ref e)) =
+          .call (goTy (.ref e)) (.var (helperFnName "ref" (.ref e)) (.func [goTy e] (goTy (.ref e)))) (compileImms env args) := by
+        simp [compileCExpr, compileCall, callee, hrn, refElem]
+      have hlook := hnin (helperFnName "ref" (.ref e)) (by simp [calleesC, goCallee, hrn, hnb])
+      have hts := typed_imms (c := c) hsc hctx hl hargs hargsS
+      rw [hshape]
+      refine ⟨_, tyOf_call_fn hlook (hl.refs e hrt).1 hts (argsAssignable_norm c _), ?_⟩
+      simp [goTy, normT_idem]
+    | _ => exact absurd hcase (by simp)
+  · rw [if_neg h1] at hcase
+    by_cases h2 : name = "ref_get"
+    · subst h2
+      simp only [beq_self_eq_true, if_true, Bool.and_eq_true] at hcase
+      obtain ⟨hargs, hrt⟩ := hcase
+      have harg0 : (args.head?.map Imm.ty).getD (.tvar 0) = .ref ty := by
+        cases args with
+        | nil => simp [argsOK] at hargs
+        | cons a as =>
+          simp only [argsOK, Bool.and_eq_true] at hargs
+          simp [scalarEq_eq hargs.1.2]
+      have hshape : compileCExpr env (.call (.var "ref_get" fty) args ty) =
+          .call (goTy ty) (.var (helperFnName "ref_get" (.ref ty)) (.func [goTy (.ref ty)] (goTy ty))) (compileImms env args) := by
+        simp [compileCExpr, compileCall, callee, hrn, harg0, refElem]
+      have hlook := hnin (helperFnName "ref_get" (.ref ty)) (by simp [calleesC, goCallee, hrn, harg0, hnb])
+      have hts := typed_imms (c := c) hsc hctx hl hargs hargsS
+      simp only [List.map, goTy] at hts
+      rw [hshape]
+      exact ⟨_, tyOf_call_fn hlook (hl.refs ty hrt).2.1 hts (argsAssignable_norm c _), normT_idem _⟩
+    · rw [if_neg h2] at hcase
+      by_cases h3 : name = "ref_set"
+      · subst h3
+        simp only [beq_self_eq_true, if_true] at hcase
+        cases args with
+        | nil => cases hcase
+        | cons r rest =>
+          simp only at hcase
+          cases hrty : r.ty with
+          | ref e =>
+            rw [hrty] at hcase; simp only [Bool.and_eq_true] at hcase
+            obtain ⟨⟨hargs, htu⟩, hrt⟩ := hcase
+            have htu' := scalarEq_eq htu; subst htu'
+            have hshape : compileCExpr env (.call (.var "ref_set" fty) (r :: rest) .unit) =
+                .call (goTy .unit) (.var (helperFnName "ref_set" (.ref e)) (.func [goTy (.ref e), goTy e] .unit))
+                  (compileImms env (r :: rest)) := by
+              simp [compileCExpr, compileCall, callee, hrn, hrty, refElem]
+            have hlook := hnin (helperFnName "ref_set" (.ref e)) (by simp [calleesC, goCallee, hrn, hrty, hnb])
+            have hts := typed_imms (c := c) hsc hctx hl hargs hargsS
+            simp only [List.map, goTy] at hts
+            rw [hshape]
+            exact ⟨_, tyOf_call_fn hlook (hl.refs e hrt).2.2 hts (argsAssignable_norm c _), by simp [goTy, normT]⟩
+          | _ => rw [hrty] at hcase; simp at hcase
+      · rw [if_neg h3] at hcase; cases hcase
+
+/-- the array helpers `array_get__T`, `array_set__T` at their signatures (the index is an `int32`) -/
+theorem typed_arrcall {env : Env} {file : AFile} {G : List String} {c : TCtx} {D : Names} {s : Scp} {Γ : Ctx}
+    {name : String} {fty : Ty} {args : List Imm} {ty : Ty}
+    (hfrag : arrCallOK env file G Γ (.var name fty) args ty = true) (hargsS : args.all stdImm = true)
+    (hidx : idxI32 args = true) (hsc : TScp s Γ)
+    (hctx : SCtx file G D (skeys s) Γ (calleesC (Γ.map (·.1)) (.call (.var name fty) args ty))) (hl : TLink env file G c) :
+    TyIs c s (compileCExpr env (.call (.var name fty) args ty)) ty := by
+  simp only [arrCallOK, Bool.and_eq_true, beq_iff_eq] at hfrag
+  obtain ⟨⟨hloc, hrn⟩, hcase⟩ := hfrag
+  have hnone : lookupTy Γ name = none := by
+    cases hx : lookupTy Γ name with
+    | none => rfl
+    | some p => rw [hx] at hloc; simp at hloc
+  have hnb := lookupTy_none_nomem hnone
+  have hnin : ∀ h, h ∈ calleesC (Γ.map (·.1)) (.call (.var name fty) args ty) → lookupS s h = none :=
+    fun h hh => lookupS_none (fun hk => (hctx.cal h hh).1 (hctx.scD _ hk))
+  cases args with
+  | nil => cases hcase
+  | cons a rest =>
+    cases rest with
+    | nil => cases hcase
+    | cons i rest =>
+      simp only at hcase
+      simp only [idxI32] at hidx
+      have hi32 := scalarEq_eq hidx
+      cases haty : a.ty with
+      | array len e =>
+        rw [haty] at hcase; simp only [Bool.and_eq_true] at hcase
+        obtain ⟨⟨_, hat⟩, hif⟩ := hcase
+        by_cases h1 : name = "array_get"
+        · subst h1
+          rw [if_pos rfl] at hif; simp only [Bool.and_eq_true] at hif
+          have hty := scalarEq_eq hif.2
+          have hshape : compileCExpr env (.call (.var "array_get" fty) (a :: i :: rest) ty) =
+              .call (goTy ty) (.var (helperFnName "array_get" (.array len e)) (goTy fty)) (compileImms env (a :: i :: rest)) := by
+            simp [compileCExpr, compileCall, callee, hrn, haty, Imm.ty_var]
+          have hlook := hnin (helperFnName "array_get" (.array len e)) (by simp [calleesC, goCallee, hrn, haty, hnb])
+          have hts := typed_imms (c := c) hsc hctx hl hif.1 hargsS
+          simp only [List.map, goTy, hi32] at hts
+          rw [hshape, hty]
+          exact ⟨_, tyOf_call_fn hlook (hl.arrs len e hat).1 hts (argsAssignable_norm c _), normT_idem _⟩
+        · rw [if_neg h1] at hif
+          by_cases h2 : name = "array_set"
+          · subst h2
+            rw [if_pos rfl] at hif; simp only [Bool.and_eq_true] at hif
+            have hty := scalarEq_eq hif.2
+            have hshape : compileCExpr env (.call (.var "array_set" fty) (a :: i :: rest) ty) =
+                .call (goTy ty) (.var (helperFnName "array_set" (.array len e)) (goTy fty)) (compileImms env (a :: i :: rest)) := by
+              simp [compileCExpr, compileCall, callee, hrn, haty, Imm.ty_var]
+            have hlook := hnin (helperFnName "array_set" (.array len e)) (by simp [calleesC, goCallee, hrn, haty, hnb])
+            have hts := typed_imms (c := c) hsc hctx hl hif.1 hargsS
+            simp only [List.map, goTy, hi32] at hts
+            rw [hshape, hty]
+            refine ⟨_, tyOf_call_fn hlook (hl.arrs len e hat).2 hts (argsAssignable_norm c _), ?_⟩
+            simp [goTy, normT, normT_idem]
+          · rw [if_neg h2] at hif; cases hif
+      | _ => rw [haty] at hcase; cases hcase
+
+theorem goTyFields_names : ∀ (i : Nat) (ts : List Ty), (goTyFields i ts).map (·.1) = fieldNames i ts.length
+  | _, [] => by simp [goTyFields, fieldNames]
+  | i, t :: ts => by simp [goTyFields, fieldNames, goTyFields_names (i + 1) ts]
+
+theorem mem_goTyFields : ∀ (i : Nat) (ts : List Ty) (k : Nat) (t : Ty), ts[k]? = some t → (fieldN (i + k), goTy t) ∈ goTyFields i ts
+  | _, [], k, t, h => by simp at h
+  | i, t0 :: ts, 0, t, h => by simp at h; subst h; simp [goTyFields]
+  | i, t0 :: ts, k + 1, t, h => by
+    simp only [List.getElem?_cons_succ] at h
+    have := mem_goTyFields (i + 1) ts k t h
+    simp only [goTyFields, List.mem_cons]
+    right; rw [show i + (k + 1) = i + 1 + k by omega]; exact this
+
+/-- the fields `_i, _{i+1}, …` of a tuple literal against the declaration of its struct -/
+theorem fields_tuple_ok {env : Env} {file : AFile} {G : List String} {c : TCtx} {s : Scp} {Γ : Ctx} {D : Names} {cs : List String}
+    (hsc : TScp s Γ) (hctx : SCtx file G D (skeys s) Γ cs) (hl : TLink env file G c) (decl : List (String × GTy))
+    (hnd : (decl.map (·.1)).Nodup) : ∀ (i : Nat) (items : List Imm) (tys : List Ty),
+    argsOK env file G Γ items tys = true → items.all stdImm = true →
+    (∀ k t, tys[k]? = some t → (fieldN (i + k), goTy t) ∈ decl) →
+    fieldsOKT c s decl (tupleFields i (compileImms env items)) = .ok ()
+  | _, [], [], _, _, _ => by simp [tupleFields, compileImms, fieldsOKT]
+  | _, [], _ :: _, h, _, _ => by simp [argsOK] at h
+  | _, _ :: _, [], h, _, _ => by simp [argsOK] at h
+  | i, a :: as, t :: ts, h, hs, hmem => by
+    simp only [argsOK, Bool.and_eq_true] at h
+    simp only [List.all_cons, Bool.and_eq_true] at hs
+    obtain ⟨⟨ha, hta⟩, has⟩ := h
+    have hty := scalarEq_eq hta
+    have h1 := typed_imm (c := c) ha hs.1 hsc hctx hl
+    have h2 := fields_tuple_ok hsc hctx hl decl hnd (i + 1) as ts has hs.2 (fun k u hk => by
+      have := hmem (k + 1) u (by simpa using hk)
+      rw [show i + 1 + k = i + (k + 1) by omega]; exact this)
+    have hf := find_field_nodup hnd (by simpa using hmem 0 t (by simp))
+    simp only [compileImms, List.map_cons, tupleFields] at h2 ⊢
+    simp only [fieldsOKT, h1, hf, hty, assignable_of_norm c rfl, R.guard, if_true, h2, R.both]
+
+theorem all_assignable_replicate (c : TCtx) (t : GTy) : ∀ n : Nat, (List.replicate n t).all (assignableT c (normT t)) = true
+  | 0 => rfl
+  | n + 1 => by
+    simp only [List.replicate, List.all_cons, assignable_of_norm c (normT_idem t).symm, all_assignable_replicate c t n, Bool.and_self]
+
+/-- a simple `CExpr` of the typing half compiled by `compile_cexpr` has the Go type of its annotation -/
 theorem typed_cexpr {env : Env} {file : AFile} {G : List String} {c : TCtx} {D : Names} {s : Scp} {Γ : Ctx} {K : KCtx} {e : CExpr}
-    (hctl : isCtl e = false) (hfrag : fragC env file G Γ K e = true) (hstd : stdC e = true) (hsc : TScp s Γ)
-    (hctx : SCtx file G D (skeys s) Γ (calleesC (Γ.map (·.1)) e)) (hl : TLink file G c) :
-    tyOfT c s (compileCExpr env e) = .ok (goTy e.annTy) ∧ stdTy e.annTy = true := by
+    (hctl : isCtl e = false) (hfrag : fragC env file G Γ K e = true) (hstd : stdC env file e = true) (hsc : TScp s Γ)
+    (hctx : SCtx file G D (skeys s) Γ (calleesC (Γ.map (·.1)) e)) (hl : TLink env file G c) :
+    TyIs c s (compileCExpr env e) e.annTy ∧ stdTy e.annTy = true := by
   cases e with
   | imm i =>
     simp only [fragC] at hfrag; simp only [stdC] at hstd
-    refine ⟨typed_imm hfrag hstd hsc, ?_⟩
+    refine ⟨TyIs.exact (typed_imm hfrag hstd hsc hctx hl), ?_⟩
     cases i <;> simp [stdImm] at hstd <;> simp [CExpr.annTy, Imm.ty, hstd]
   | un op a ty =>
     simp only [fragC, Bool.and_eq_true] at hfrag
     simp only [stdC, Bool.and_eq_true] at hstd
-    have h1 := typed_imm (c := c) hfrag.1 hstd.1 hsc
-    refine ⟨?_, hstd.2⟩
+    have h1 := typed_imm (c := c) hfrag.1 hstd.1 hsc hctx hl
+    refine ⟨TyIs.exact ?_, hstd.2⟩
     simp only [compileCExpr, tyOfT, h1, R.bind, CExpr.annTy]
     cases op with
     | neg =>
@@ -172,16 +520,17 @@ theorem typed_cexpr {env : Env} {file : AFile} {G : List String} {c : TCtx} {D :
     simp only [fragC, Bool.and_eq_true] at hfrag
     simp only [stdC, Bool.and_eq_true] at hstd
     obtain ⟨⟨hli, hri⟩, hop⟩ := hfrag
-    have h1 := typed_imm (c := c) hli hstd.1.1 hsc
-    have h2 := typed_imm (c := c) hri hstd.1.2 hsc
-    refine ⟨?_, hstd.2⟩
+    have h1 := typed_imm (c := c) hli hstd.1.1 hsc hctx hl
+    have h2 := typed_imm (c := c) hri hstd.1.2 hsc hctx hl
+    refine ⟨TyIs.exact ?_, hstd.2⟩
     simp only [binOK, Bool.and_eq_true] at hop
     obtain ⟨⟨hlr, hdom⟩, hres⟩ := hop
     have hlr' := scalarEq_eq hlr
     have hres' := scalarEq_eq hres
     have hlstd : stdTy l.ty = true := by
       cases l <;> simp [stdImm] at hstd <;> simp [Imm.ty, hstd.1.1]
-    simp only [compileCExpr, tyOfT, h1, h2, CExpr.annTy, ← hlr', (goTy_std hlstd).2.1, Bool.not_true, Bool.false_eq_true, if_false]
+    simp only [compileCExpr, tyOfT, h1, h2, CExpr.annTy, ← hlr', tyEqT_of_norm (rfl : normT (goTy l.ty) = _), Bool.not_true,
+      Bool.false_eq_true, if_false]
     subst hres'
     cases op <;> cases hlt : l.ty <;> rw [hlt] at hdom hlstd <;> simp [binDom, scalarTy, stdTy] at hdom hlstd <;>
       simp [gBin, binResTy, goTy, normT, isNumeric, isOrdered, tyEqT, tyBeqG, comparableT]
@@ -191,9 +540,63 @@ theorem typed_cexpr {env : Env} {file : AFile} {G : List String} {c : TCtx} {D :
     refine ⟨?_, htyS⟩
     cases f with
     | var name fty =>
-      simp only [Bool.and_eq_true, Bool.not_eq_true'] at hf
+      simp only [Bool.and_eq_true, Bool.not_eq_true', Bool.or_eq_true] at hf
+      obtain ⟨hnvec, harrI⟩ := hf
       simp only [fragC, Bool.or_eq_true] at hfrag
-      by_cases hlc : localCallOK env file G Γ (.var name fty) args ty = true
+      rcases hfrag with (((hcall | href) | harr) | hlc) | hvec
+      · -- a function of `G` or a printing builtin, by name
+        have hshape := compileCall_frag hcall
+        simp only [callOK, Bool.and_eq_true, Bool.not_eq_true', beq_iff_eq] at hcall
+        obtain ⟨⟨⟨⟨⟨hloc, hrn⟩, hsp⟩, hext⟩, hentry⟩, hcase⟩ := hcall
+        have hcs : calleesC (Γ.map (·.1)) (.call (.var name fty) args ty) = [vn name] := by
+          simp only [calleesC]
+          have hnone : lookupTy Γ name = none := by
+            cases hx : lookupTy Γ name with
+            | none => rfl
+            | some p => rw [hx] at hloc; simp at hloc
+          exact goCallee_plain (lookupTy_none_not_mem hnone) hsp hrn
+        have hnin : ¬ vn name ∈ skeys s := fun hk =>
+          (hctx.cal (vn name) (by rw [hcs]; exact List.mem_singleton.mpr rfl)).1 (hctx.scD _ hk)
+        have hlook : lookupS s (vn name) = none := lookupS_none hnin
+        simp only [compileCExpr, hshape, CExpr.annTy]
+        -- the callee's signature
+        have hsig : ∃ ps, c.findFunc (vn name) = some (ps.map goTy, goTy ty) ∧ argsOK env file G Γ args ps = true := by
+          cases hsg : builtinSig name with
+          | some pr =>
+            obtain ⟨ps, r⟩ := pr
+            rw [hsg] at hcase; simp only [Bool.and_eq_true] at hcase
+            obtain ⟨⟨hbn, hargs⟩, hty⟩ := hcase
+            have hbn' : name ∈ builtinNames := by simpa using hbn
+            have := hl.builtin name ps r hbn' hsg
+            rw [vn_builtin hbn', scalarEq_eq hty]
+            exact ⟨ps, this, hargs⟩
+          | none =>
+            rw [hsg] at hcase; simp only at hcase
+            cases hfind : file.find? (·.name == name) with
+            | none => rw [hfind] at hcase; simp at hcase
+            | some g =>
+              rw [hfind] at hcase; simp only [Bool.and_eq_true] at hcase
+              obtain ⟨⟨hG, hargs⟩, hty⟩ := hcase
+              have hgmem : g ∈ file := List.mem_of_find?_eq_some hfind
+              have hgname : g.name = name := by have := List.find?_some hfind; simpa using this
+              have := hl.fn g hgmem (by rw [hgname]; simpa using hG) (by rw [hgname]; simpa using hentry) (by rw [hgname]; exact hrn)
+              rw [hgname] at this
+              rw [scalarEq_eq hty]
+              exact ⟨g.params.map (·.2), by simpa [List.map_map, Function.comp_def] using this, hargs⟩
+        obtain ⟨ps, hfn, hargs⟩ := hsig
+        have hts := typed_imms (c := c) hsc (hctx.mono_cs (fun _ h => h)) hl hargs hargsS
+        have hcond : ((lookupS s (vn name)).isNone && (c.findFunc (vn name)).isNone) = false := by simp [hfn]
+        refine ⟨normT (goTy ty), ?_, normT_idem _⟩
+        simp only [tyOfT, hcond, Bool.false_eq_true, if_false, hlook, hfn, hts, callOfT, normT_func,
+          argsAssignable_norm c, if_true]
+        simp
+      · exact typed_refcall href hargsS hsc hctx hl
+      · have hn := (arrcall_name harr).2
+        have hidx : idxI32 args = true := by
+          rcases harrI with h | h
+          · exfalso; rcases hn with hn | hn <;> (subst hn; simp [arrNames] at h)
+          · exact h
+        exact typed_arrcall harr hargsS hidx hsc hctx hl
       · -- a call through a local of function type
         simp only [localCallOK] at hlc
         cases hlk : lookupTy Γ name with
@@ -210,100 +613,118 @@ theorem typed_cexpr {env : Env} {file : AFile} {G : List String} {c : TCtx} {D :
             | some p => rw [hx] at hext; simp at hext
           have hty' := scalarEq_eq hty; subst hty'
           have hlook : lookupS s (vn name) = some (goTy (.func ps ty)) := hsc name _ hlk
-          obtain ⟨hts, hpstd⟩ := typed_imms (c := c) hsc hargs hargsS
-          have hgts : ∀ l : List Ty, goTys l = l.map goTy := by
-            intro l; induction l with
-            | nil => simp [goTys]
-            | cons a l ih => simp [goTys, ih]
-          have hgf : goTy (.func ps ty) = .func (ps.map goTy) (goTy ty) := by simp [goTy, hgts]
+          have hts := typed_imms (c := c) hsc hctx hl hargs hargsS
+          have hgf : goTy (.func ps ty) = .func (ps.map goTy) (goTy ty) := by simp [goTy, goTys_map]
           have hcond : ((lookupS s (vn name)).isNone && (c.findFunc (vn name)).isNone) = false := by simp [hlook]
+          refine ⟨normT (goTy ty), ?_, normT_idem _⟩
           simp only [compileCExpr, compileCall_local hsp hext', CExpr.annTy, tyOfT, hcond, Bool.false_eq_true, if_false, hlook,
-            hts, callOfT, hgf, normT_func, argsAssignable_std c hpstd, if_true, (goTy_std htyS).1]
+            hts, callOfT, hgf, normT_func, argsAssignable_norm c, if_true]
           simp
-      have hcall : callOK env file G Γ (.var name fty) args ty = true := by
-        rcases hfrag with (((h | h) | h) | h) | h
-        rotate_left 4
-        · exfalso
-          simp only [vecCallOK, Bool.and_eq_true] at h
-          obtain ⟨_, hcase⟩ := h
-          have hnv : ¬ name = "vec_new" ∧ ¬ name = "vec_push" ∧ ¬ name = "vec_get" ∧ ¬ name = "vec_len" := by
-            have := hf.2; simp [vecNames] at this; exact this
-          rw [if_neg (by simpa using hnv.1), if_neg (by simpa using hnv.2.1), if_neg (by simpa using hnv.2.2.1),
-            if_neg (by simpa using hnv.2.2.2)] at hcase
-          cases hcase
-        rotate_left 3
-        · exact absurd h hlc
-        · exact h
-        · exfalso
-          simp only [refCallOK, Bool.and_eq_true] at h
-          obtain ⟨_, hcase⟩ := h
-          have hnr : ¬ name = "ref" ∧ ¬ name = "ref_get" ∧ ¬ name = "ref_set" := by
-            have := hf.1.1; simp [refNames] at this; exact this
-          rw [if_neg (by simpa using hnr.1), if_neg (by simpa using hnr.2.1), if_neg (by simpa using hnr.2.2)] at hcase
-          cases hcase
-        · exfalso
-          obtain ⟨_, hn⟩ := arrcall_name h
-          have := hf.1.2; simp [arrNames] at this
-          rcases hn with hn | hn
-          · exact this.1 hn
-          · exact this.2 hn
-      have hshape := compileCall_frag hcall
-      simp only [callOK, Bool.and_eq_true, Bool.not_eq_true', beq_iff_eq] at hcall
-      obtain ⟨⟨⟨⟨⟨hloc, hrn⟩, hsp⟩, hext⟩, hentry⟩, hcase⟩ := hcall
-      have hcs : calleesC (Γ.map (·.1)) (.call (.var name fty) args ty) = [vn name] := by
-        simp only [calleesC]
-        have hnone : lookupTy Γ name = none := by
-          cases hx : lookupTy Γ name with
-          | none => rfl
-          | some p => rw [hx] at hloc; simp at hloc
-        exact goCallee_plain (lookupTy_none_not_mem hnone) hsp hrn
-      have hnin : ¬ vn name ∈ skeys s := fun hk =>
-        (hctx.cal (vn name) (by rw [hcs]; exact List.mem_singleton.mpr rfl)).1 (hctx.scD _ hk)
-      have hlook : lookupS s (vn name) = none := lookupS_none hnin
-      simp only [compileCExpr, hshape, CExpr.annTy]
-      -- the callee's signature
-      have hsig : ∃ ps, c.findFunc (vn name) = some (ps.map goTy, goTy ty) ∧ argsOK env file G Γ args ps = true := by
-        cases hsg : builtinSig name with
-        | some pr =>
-          obtain ⟨ps, r⟩ := pr
-          rw [hsg] at hcase; simp only [Bool.and_eq_true] at hcase
-          obtain ⟨⟨hbn, hargs⟩, hty⟩ := hcase
-          have hbn' : name ∈ builtinNames := by simpa using hbn
-          have := hl.builtin name ps r hbn' hsg
-          rw [vn_builtin hbn', scalarEq_eq hty]
-          exact ⟨ps, this, hargs⟩
-        | none =>
-          rw [hsg] at hcase; simp only at hcase
-          cases hfind : file.find? (·.name == name) with
-          | none => rw [hfind] at hcase; simp at hcase
-          | some g =>
-            rw [hfind] at hcase; simp only [Bool.and_eq_true] at hcase
-            obtain ⟨⟨hG, hargs⟩, hty⟩ := hcase
-            have hgmem : g ∈ file := List.mem_of_find?_eq_some hfind
-            have hgname : g.name = name := by have := List.find?_some hfind; simpa using this
-            have := hl.fn g hgmem (by rw [hgname]; simpa using hG) (by rw [hgname]; simpa using hentry) (by rw [hgname]; exact hrn)
-            rw [hgname] at this
-            rw [scalarEq_eq hty]
-            exact ⟨g.params.map (·.2), by simpa [List.map_map, Function.comp_def] using this, hargs⟩
-      obtain ⟨ps, hfn, hargs⟩ := hsig
-      obtain ⟨hts, hpstd⟩ := typed_imms (c := c) hsc hargs hargsS
-      have hcond : ((lookupS s (vn name)).isNone && (c.findFunc (vn name)).isNone) = false := by simp [hfn]
-      simp only [tyOfT, hcond, Bool.false_eq_true, if_false, hlook, hfn, hts, callOfT, normT_func,
-        argsAssignable_std c hpstd, if_true, (goTy_std htyS).1]
-      simp
+      · exfalso
+        simp only [vecCallOK, Bool.and_eq_true] at hvec
+        obtain ⟨_, hcase⟩ := hvec
+        have hnv : ¬ name = "vec_new" ∧ ¬ name = "vec_push" ∧ ¬ name = "vec_get" ∧ ¬ name = "vec_len" := by
+          have := hnvec; simp [vecNames] at this; exact this
+        rw [if_neg (by simpa using hnv.1), if_neg (by simpa using hnv.2.1), if_neg (by simpa using hnv.2.2.1),
+          if_neg (by simpa using hnv.2.2.2)] at hcase
+        cases hcase
     | prim p t => simp at hf
     | tag i t => simp at hf
+  | constr ct args ty =>
+    cases ct with
+    | enum _ _ _ => simp [stdC] at hstd
+    | struct sn =>
+      simp only [stdC, Bool.and_eq_true] at hstd
+      simp only [fragC, Bool.and_eq_true] at hfrag
+      obtain ⟨⟨hty, hgood⟩, hcase⟩ := hfrag
+      have hty' := scalarEq_eq hty; subst hty'
+      have hsn : sn ∈ goodStructs env := by simpa using hgood
+      obtain ⟨d, hd, hgen, hnd, _⟩ := good_struct hl.closed hsn
+      rw [hd] at hcase; simp only at hcase
+      obtain ⟨ms, hfs⟩ := hl.structs sn d hsn hd
+      have hnd' : ((d.fields.map fun f => (gid f.1, goTy f.2)).map (·.1)).Nodup := by
+        simpa [List.map_map, Function.comp_def] using hnd
+      have hfields := fields_struct_ok hsc hctx hl _ hnd' d.fields args hcase hstd.1
+        (fun p hp => List.mem_map_of_mem (f := fun f : String × Ty => (gid f.1, goTy f.2)) hp)
+      refine ⟨TyIs.exact ?_, hstd.2⟩
+      simp only [compileCExpr, hd, Option.map_some, Option.getD_some, tyOfT, goTy, normT, hfs, hfields, R.bind, CExpr.annTy]
+  | cget a ct idx ty =>
+    cases ct with
+    | enum _ _ _ => simp [stdC] at hstd
+    | struct sn =>
+      simp only [stdC, Bool.and_eq_true] at hstd
+      simp only [fragC, Bool.and_eq_true] at hfrag
+      obtain ⟨⟨ha, haty⟩, hcase⟩ := hfrag
+      obtain ⟨⟨hgood, has⟩, htyS⟩ := hstd
+      have haty' := scalarEq_eq haty
+      have hsn : sn ∈ goodStructs env := by simpa using hgood
+      obtain ⟨d, hd, hgen, hnd, _⟩ := good_struct hl.closed hsn
+      obtain ⟨ms, hfs⟩ := hl.structs sn d hsn hd
+      have h1 := typed_imm (c := c) ha has hsc hctx hl
+      rw [cgetField_struct haty' hd hgen] at hcase
+      refine ⟨TyIs.exact ?_, htyS⟩
+      cases hfi : d.fields[idx]? with
+      | none => rw [hfi] at hcase; cases hcase
+      | some p =>
+        rw [hfi] at hcase; simp only [Option.map_some] at hcase
+        have hty' := scalarEq_eq hcase
+        have hnd' : ((d.fields.map fun f => (gid f.1, goTy f.2)).map (·.1)).Nodup := by
+          simpa [List.map_map, Function.comp_def] using hnd
+        have hf := find_field_nodup hnd' (List.mem_map_of_mem (f := fun f : String × Ty => (gid f.1, goTy f.2)) (List.mem_of_getElem? hfi))
+        simp only [compileCExpr, cgetField_struct haty' hd hgen, hfi, Option.map_some, Option.getD_some, tyOfT, h1, haty', goTy,
+          normT, R.bind, hfs, hf, CExpr.annTy, hty']
+  | tuple items ty =>
+    simp only [stdC, Bool.and_eq_true] at hstd
+    simp only [fragC] at hfrag
+    cases ty <;> simp only at hfrag <;> try (cases hfrag; done)
+    rename_i ts
+    simp only [Bool.and_eq_true] at hfrag
+    obtain ⟨hargs, htok⟩ := hfrag
+    obtain ⟨hnd, ms, hfs⟩ := hl.tups ts htok
+    have hnd' : ((goTyFields 0 ts).map (·.1)).Nodup := by rw [goTyFields_names]; exact hnd
+    have hfields := fields_tuple_ok hsc hctx hl _ hnd' 0 items ts hargs hstd.1 (fun k t hk => mem_goTyFields 0 ts k t hk)
+    refine ⟨TyIs.exact ?_, hstd.2⟩
+    simp only [compileCExpr, tupleStructTy, tyOfT, goTy, normT, hfs, hfields, R.bind, CExpr.annTy]
+  | array items ty =>
+    simp only [stdC, Bool.and_eq_true] at hstd
+    simp only [fragC] at hfrag
+    cases ty <;> simp only at hfrag <;> try (cases hfrag; done)
+    rename_i len e
+    simp only [Bool.and_eq_true] at hfrag
+    obtain ⟨hargs, _⟩ := hfrag
+    have hlen := argsOK_length hargs
+    simp only [List.length_replicate] at hlen
+    have hts := typed_imms (c := c) hsc hctx hl hargs hstd.1
+    have hclen : (compileImms env items).length = len := by simp [compileImms, hlen]
+    refine ⟨TyIs.exact ?_, hstd.2⟩
+    simp only [compileCExpr, tyOfT, goTy, normT, hclen, bne_self_eq_false, Bool.false_and, Bool.false_eq_true, if_false, hts,
+      R.bind, List.map_replicate, all_assignable_replicate, if_true, CExpr.annTy]
+  | proj a idx ty =>
+    simp only [stdC, Bool.and_eq_true] at hstd
+    simp only [fragC, Bool.and_eq_true] at hfrag
+    obtain ⟨ha, hcase⟩ := hfrag
+    obtain ⟨⟨htok, has⟩, htyS⟩ := hstd
+    have h1 := typed_imm (c := c) ha has hsc hctx hl
+    cases haty : a.ty <;> rw [haty] at hcase <;> simp only at hcase <;> try (cases hcase; done)
+    rename_i ts
+    simp only [Bool.and_eq_true] at hcase
+    rw [haty] at htok h1
+    obtain ⟨hnd, ms, hfs⟩ := hl.tups ts htok
+    have hnd' : ((goTyFields 0 ts).map (·.1)).Nodup := by rw [goTyFields_names]; exact hnd
+    refine ⟨TyIs.exact ?_, htyS⟩
+    cases hti : ts[idx]? with
+    | none => rw [hti] at hcase; simp at hcase
+    | some t =>
+      rw [hti] at hcase; simp only at hcase
+      have hty' := scalarEq_eq hcase.2
+      have hf := find_field_nodup hnd' (by simpa using mem_goTyFields 0 ts idx t hti)
+      simp only [compileCExpr, tyOfT, h1, goTy, normT, R.bind, hfs, hf, CExpr.annTy, hty']
   | ite _ _ _ _ => simp [isCtl] at hctl
   | «while» _ _ _ => simp [isCtl] at hctl
   | matchE _ _ _ _ => simp [isCtl] at hctl
-  | constr _ _ _ => simp [stdC] at hstd
-  | tuple _ _ => simp [stdC] at hstd
-  | array _ _ => simp [stdC] at hstd
-  | cget _ _ _ _ => simp [stdC] at hstd
   | toDyn _ _ _ _ => simp [stdC] at hstd
   | dynCall _ _ _ _ _ => simp [stdC] at hstd
   | go _ _ => simp [stdC] at hstd
-  | proj _ _ _ => simp [stdC] at hstd
 
 /-! ### statement sequences -/
 
@@ -332,63 +753,66 @@ theorem block_of_seq_then {c : TCtx} {ret : Option GTy} : ∀ {S rest : List GSt
     obtain ⟨s1, hs, hr⟩ := h
     simp only [List.cons_append, blockOKT, hs]; exact block_of_seq_then hr
 
-theorem isNilLit_simple {env : Env} {e : CExpr} (hstd : stdC e = true) (hctl : isCtl e = false) {file G Γ K}
+/-- every call form of `compile_cexpr` but `vec_new` (`nil`) and `vec_get` (an index expression) is a Go call -/
+theorem compileCall_isCall (env : Env) (name : String) (fty : Ty) (args : List Imm) (ty : Ty)
+    (h1 : rn name ≠ "vec_new") (h2 : rn name ≠ "vec_get") :
+    isNilLit (compileCall env (.var name fty) args ty) = false ∧ isCallE (compileCall env (.var name fty) args ty) = true := by
+  simp only [compileCall, callee]
+  repeat' split
+  all_goals simp_all [isNilLit, isCallE, compileImm]
+
+theorem isNilLit_simple {env : Env} {file0 : AFile} {e : CExpr} (hstd : stdC env file0 e = true) (hctl : isCtl e = false) {file G Γ K}
     (hfrag : fragC env file G Γ K e = true) :
     isNilLit (compileCExpr env e) = false ∧ (∀ f a t, e = .call f a t → isCallE (compileCExpr env e) = true) := by
-  cases e <;> simp [stdC] at hstd <;> simp [isCtl] at hctl
-  · rename_i i; cases i <;> simp [compileCExpr, compileImm, isNilLit]
+  cases e with
+  | imm i =>
+    cases i <;> simp [compileCExpr, compileImm, isNilLit]
     rename_i p t; cases p <;> simp [lit, isNilLit]
-  · simp [compileCExpr, isNilLit]
-  · simp [compileCExpr, isNilLit]
-  · rename_i f args ty
+  | un _ _ _ => simp [compileCExpr, isNilLit]
+  | bin _ _ _ _ => simp [compileCExpr, isNilLit]
+  | constr ct _ _ => cases ct <;> simp [compileCExpr, isNilLit]
+  | cget _ _ _ _ => simp [compileCExpr, isNilLit]
+  | tuple _ _ => simp [compileCExpr, isNilLit]
+  | array _ _ => simp [compileCExpr, isNilLit]
+  | proj _ _ _ => simp [compileCExpr, isNilLit]
+  | call f args ty =>
+    simp only [stdC, Bool.and_eq_true] at hstd
     cases f with
     | var name fty =>
       simp only [Bool.and_eq_true, Bool.not_eq_true'] at hstd
-      simp only [fragC, Bool.or_eq_true] at hfrag
-      by_cases hlc : localCallOK env file G Γ (.var name fty) args ty = true
-      · simp only [localCallOK] at hlc
-        cases hlk : lookupTy Γ name with
-        | none => rw [hlk] at hlc; cases hlc
-        | some t =>
-          rw [hlk] at hlc
-          cases t <;> simp only at hlc <;> try (cases hlc; done)
-          simp only [Bool.and_eq_true, Bool.not_eq_true'] at hlc
-          obtain ⟨⟨⟨⟨_, hsp⟩, hext⟩, _⟩, _⟩ := hlc
-          have hext' : env.getExternFn (rn name) = none := by
-            cases hx : env.getExternFn (rn name) with
-            | none => rfl
-            | some p => rw [hx] at hext; simp at hext
-          simp [compileCExpr, compileCall_local hsp hext', isNilLit, isCallE]
-      have hcall : callOK env file G Γ (.var name fty) args ty = true := by
+      have hnvec := hstd.2.1
+      have hnv : ¬ name = "vec_new" ∧ ¬ name = "vec_push" ∧ ¬ name = "vec_get" ∧ ¬ name = "vec_len" := by
+        have := hnvec; simp [vecNames] at this; exact this
+      have hne : rn name ≠ "vec_new" ∧ rn name ≠ "vec_get" := by
+        simp only [fragC, Bool.or_eq_true] at hfrag
         rcases hfrag with (((h | h) | h) | h) | h
-        rotate_left 4
-        · exfalso
-          simp only [vecCallOK, Bool.and_eq_true] at h
-          obtain ⟨_, hcase⟩ := h
-          have hnv : ¬ name = "vec_new" ∧ ¬ name = "vec_push" ∧ ¬ name = "vec_get" ∧ ¬ name = "vec_len" := by
-            have := hstd.2.2; simp [vecNames] at this; exact this
-          rw [if_neg (by simpa using hnv.1), if_neg (by simpa using hnv.2.1), if_neg (by simpa using hnv.2.2.1),
-            if_neg (by simpa using hnv.2.2.2)] at hcase
-          cases hcase
-        rotate_left 3
-        · exact absurd h hlc
-        · exact h
-        · exfalso
-          simp only [refCallOK, Bool.and_eq_true] at h
-          obtain ⟨_, hcase⟩ := h
-          have hnr : ¬ name = "ref" ∧ ¬ name = "ref_get" ∧ ¬ name = "ref_set" := by
-            have := hstd.2.1.1; simp [refNames] at this; exact this
-          rw [if_neg (by simpa using hnr.1), if_neg (by simpa using hnr.2.1), if_neg (by simpa using hnr.2.2)] at hcase
-          cases hcase
-        · exfalso
-          obtain ⟨_, hn⟩ := arrcall_name h
-          have := hstd.2.1.2; simp [arrNames] at this
-          rcases hn with hn | hn
-          · exact this.1 hn
-          · exact this.2 hn
-      simp [compileCExpr, compileCall_frag hcall, isNilLit, isCallE]
+        · simp only [callOK, Bool.and_eq_true, Bool.not_eq_true', beq_iff_eq] at h
+          rw [h.1.1.1.1.2]; exact ⟨hnv.1, hnv.2.2.1⟩
+        · simp only [refCallOK, Bool.and_eq_true, beq_iff_eq] at h
+          rw [h.1.2]; exact ⟨hnv.1, hnv.2.2.1⟩
+        · rw [(arrcall_name h).1]; exact ⟨hnv.1, hnv.2.2.1⟩
+        · simp only [localCallOK] at h
+          cases hlk : lookupTy Γ name with
+          | none => rw [hlk] at h; cases h
+          | some t =>
+            rw [hlk] at h
+            cases t <;> simp only at h <;> try (cases h; done)
+            simp only [Bool.and_eq_true, Bool.not_eq_true'] at h
+            have hsp := h.1.1.1.2
+            simp only [specialCallees, List.contains_cons, List.contains_nil, Bool.or_false, Bool.or_eq_false_iff, beq_eq_false_iff_ne] at hsp
+            exact ⟨hsp.2.2.2.2.2.1, hsp.2.2.2.2.2.2.2.1⟩
+        · simp only [vecCallOK, Bool.and_eq_true, beq_iff_eq] at h
+          rw [h.1.2]; exact ⟨hnv.1, hnv.2.2.1⟩
+      have := compileCall_isCall env name fty args ty hne.1 hne.2
+      exact ⟨by simpa [compileCExpr] using this.1, fun _ _ _ _ => by simpa [compileCExpr] using this.2⟩
     | prim p t => simp at hstd
     | tag i t => simp at hstd
+  | ite _ _ _ _ => simp [isCtl] at hctl
+  | «while» _ _ _ => simp [isCtl] at hctl
+  | matchE _ _ _ _ => simp [isCtl] at hctl
+  | toDyn _ _ _ _ => simp [stdC] at hstd
+  | dynCall _ _ _ _ _ => simp [stdC] at hstd
+  | go _ _ => simp [stdC] at hstd
 
 /-! ### the scope along a statement list -/
 
@@ -442,40 +866,47 @@ theorem TgtTy.extend {m : Mode} {s : Scp} {ty : Ty} {Γ : Ctx} (h : TgtTy m s ty
     show lookupS (Dl ++ s) (gid t) = some (goTy ty)
     rw [lookupS_append_right (fun hk => hfresh _ hk hs.1)]; exact h
 
-theorem len_ok_std {t : Ty} (h : stdTy t = true) :
-    (match normT (goTy t) with | .array n _ => R.guard (!(n > 100000000)) | _ => R.ok ()) = R.ok () := by
-  cases t <;> simp [stdTy] at h <;> simp [goTy, normT]
+theorem len_bound {t : Ty} (h : stdTy t = true) {n : Nat} {e : GTy} (hn : normT (goTy t) = .array n e) : ¬ n > 100000000 := by
+  cases t <;> simp [stdTy] at h <;> simp [goTy, normT] at hn
+  omega
 
 theorem stmt_varDecl_none_ok (c : TCtx) (ret : Option GTy) (s : Scp) (x : String) {t : Ty} (h : stdTy t = true) :
     stmtOKT c ret s (.varDecl x (goTy t) none) = .ok ((x, goTy t) :: s) := by
-  cases t <;> simp [stdTy] at h <;> simp [stmtOKT, goTy, normT, R.both, R.bind]
+  simp only [stmtOKT]
+  cases hnt : normT (goTy t) <;> simp only [R.both, R.bind]
+  have := len_bound h hnt
+  simp [R.guard, this]
 
 theorem stmt_varDecl_some_ok (c : TCtx) (ret : Option GTy) (s : Scp) (x : String) {t : Ty} (h : stdTy t = true) {e : GExpr}
-    (he : tyOfT c s e = .ok (goTy t)) (hnil : isNilLit e = false) :
+    (he : TyIs c s e t) (hnil : isNilLit e = false) :
     stmtOKT c ret s (.varDecl x (goTy t) (some e)) = .ok ((x, goTy t) :: s) := by
-  have h1 := (goTy_std h).2.2
-  have h2 := assignable_std c h
-  cases t <;> simp [stdTy] at h <;>
-    simp [stmtOKT, he, R.bind, h1, hnil, h2, R.guard, goTy, normT, R.both] <;> simp [goTy] at h1 h2 <;> simp [h1, h2]
+  obtain ⟨te, he, hn⟩ := he
+  simp only [stmtOKT, he, R.bind, not_void_of_norm h hn, hnil, Bool.false_eq_true, if_false, assignable_of_norm c hn, R.guard,
+    if_true]
+  cases hnt : normT (goTy t) <;> simp only [R.both, R.bind]
+  have := len_bound h hnt
+  simp [this]
 
 theorem stmt_assign_ok (c : TCtx) (ret : Option GTy) (s : Scp) (x : String) {t : Ty} (h : stdTy t = true) {e : GExpr}
-    (he : tyOfT c s e = .ok (goTy t)) (hx : x ≠ "_") (hl : lookupS s x = some (goTy t)) :
+    (he : TyIs c s e t) (hx : x ≠ "_") (hl : lookupS s x = some (goTy t)) :
     stmtOKT c ret s (.assign x e) = .ok s := by
+  obtain ⟨te, he, hn⟩ := he
   have hx' : (x == "_") = false := by simpa using hx
-  simp only [stmtOKT, he, R.bind, hx', Bool.false_eq_true, if_false, hl, (goTy_std h).2.2, assignable_std c h, if_true]
+  simp only [stmtOKT, he, R.bind, hx', Bool.false_eq_true, if_false, hl, not_void_of_norm h hn, assignable_of_norm c hn, if_true]
 
 theorem ndDecls_nil : ndDecls [] = [] := by simp [ndDecls]
 
 /-- the simple forms in tail position are well typed and declare nothing -/
-theorem typedC_simple {env : Env} {file : AFile} {G : List String} {c : TCtx} {D : Names} {ret : Option GTy} (hl : TLink file G c)
+theorem typedC_simple {env : Env} {file : AFile} {G : List String} {c : TCtx} {D : Names} {ret : Option GTy} (hl : TLink env file G c)
     (m : Mode) (e : CExpr) (Γ : Ctx) (K : KCtx) (s : Scp) (hctl : isCtl e = false)
-    (hfrag : fragC env file G Γ K e = true) (hstd : stdC e = true) (hsc : TScp s Γ) (hctx : SCtx file G D (skeys s) Γ (calleesC (Γ.map (·.1)) e))
+    (hfrag : fragC env file G Γ K e = true) (hstd : stdC env file e = true) (hsc : TScp s Γ) (hctx : SCtx file G D (skeys s) Γ (calleesC (Γ.map (·.1)) e))
     (htgt : TgtSc m Γ (skeys s)) (htt : TgtTy m s e.annTy) : seqOK c ret s (compileSimple env m e) s := by
   obtain ⟨hty, hstdt⟩ := typed_cexpr (c := c) hctl hfrag hstd hsc hctx hl
   cases m with
   | assign t =>
+    have hgo : isGoC e = false := by cases e <;> first | rfl | simp [stdC] at hstd
     have hshape : compileSimple env (.assign t) e = [.assign (gid t) (compileCExpr env e)] := by
-      cases e <;> simp [isCtl] at hctl <;> (try (simp [stdC] at hstd; done)) <;> simp only [compileSimple]
+      cases e <;> simp [isCtl] at hctl <;> (try (simp [isGoC] at hgo; done)) <;> simp only [compileSimple]
       rename_i f args ty
       simp only [fragC] at hfrag
       simp [not_missing' hfrag]
@@ -484,6 +915,7 @@ theorem typedC_simple {env : Env} {file : AFile} {G : List String} {c : TCtx} {D
     exact ⟨s, stmt_assign_ok c ret s (gid t) hstdt hty hne htt, rfl⟩
   | effect =>
     have hcallE := (isNilLit_simple hstd hctl hfrag).2
+    obtain ⟨te, hty, -⟩ := hty
     cases e <;> simp [isCtl] at hctl <;> (try (simp [stdC] at hstd; done)) <;> simp only [compileSimple, seqOK] <;>
       first
         | rfl
@@ -491,8 +923,8 @@ theorem typedC_simple {env : Env} {file : AFile} {G : List String} {c : TCtx} {D
            simp only [stmtOKT, hcallE _ _ _ rfl, if_true, hty, R.bind])
 
 mutual
-theorem typedA {env : Env} {file : AFile} {G : List String} {c : TCtx} {D : Names} {ret : Option GTy} (hl : TLink file G c) :
-    ∀ (e : AExpr) (m : Mode) (st : St) (Γ : Ctx) (K : KCtx) (s : Scp), fragA env file G Γ K e = true → stdA e = true →
+theorem typedA {env : Env} {file : AFile} {G : List String} {c : TCtx} {D : Names} {ret : Option GTy} (hl : TLink env file G c) :
+    ∀ (e : AExpr) (m : Mode) (st : St) (Γ : Ctx) (K : KCtx) (s : Scp), fragA env file G Γ K e = true → stdA env file e = true →
       TScp s Γ → SCtx file G D (skeys s) Γ (calleesA (Γ.map (·.1)) e) → DeclOK D (skeys s) (compileA env m st e).1 → TgtSc m Γ (skeys s) →
       TgtTy m s (aTy e) →
       ∃ Dl, seqOK c ret s (compileA env m st e).1 (Dl ++ s) ∧ ∀ y, y ∈ skeys Dl → y ∈ topDecls (compileA env m st e).1
@@ -603,8 +1035,8 @@ theorem typedA {env : Env} {file : AFile} {G : List String} {c : TCtx} {D : Name
         rcases hy with hy | hy
         · exact List.mem_append_right _ (hk2 y hy)
         · subst hy; exact List.mem_append_left _ (by simp [topDecls])
-theorem typedC {env : Env} {file : AFile} {G : List String} {c : TCtx} {D : Names} {ret : Option GTy} (hl : TLink file G c) :
-    ∀ (e : CExpr) (m : Mode) (st : St) (Γ : Ctx) (K : KCtx) (s : Scp), fragC env file G Γ K e = true → stdC e = true →
+theorem typedC {env : Env} {file : AFile} {G : List String} {c : TCtx} {D : Names} {ret : Option GTy} (hl : TLink env file G c) :
+    ∀ (e : CExpr) (m : Mode) (st : St) (Γ : Ctx) (K : KCtx) (s : Scp), fragC env file G Γ K e = true → stdC env file e = true →
       TScp s Γ → SCtx file G D (skeys s) Γ (calleesC (Γ.map (·.1)) e) → DeclOK D (skeys s) (compileTail env m st e).1 → TgtSc m Γ (skeys s) →
       TgtTy m s e.annTy →
       ∃ Dl, seqOK c ret s (compileTail env m st e).1 (Dl ++ s) ∧ ∀ y, y ∈ skeys Dl → y ∈ topDecls (compileTail env m st e).1
@@ -615,7 +1047,7 @@ theorem typedC {env : Env} {file : AFile} {G : List String} {c : TCtx} {D : Name
     obtain ⟨⟨⟨hsc0, hst⟩, hse⟩, _⟩ := hstd
     simp only [compileTail] at hdecl ⊢
     simp only [CExpr.annTy] at htt
-    have hcty := typed_imm (c := c) hc hsc0 hsc
+    have hcty := typed_imm (c := c) hc hsc0 hsc hctx hl
     rw [scalarEq_eq hcb] at hcty
     have hdI : DeclOK D (skeys s) (compileA env m (st.check (okImm env c0)) t).1 ∧
         DeclOK D (skeys s) (compileA env m (compileA env m (st.check (okImm env c0)) t).2 e).1 := by
@@ -711,7 +1143,7 @@ theorem typedC {env : Env} {file : AFile} {G : List String} {c : TCtx} {D : Name
         simp only [s1]; rw [lookupS_cons_ne _ _ this]
         have := htt; rw [htu'] at this; exact this
       have hasg : stmtOKT c ret s1 (.assign (gid t) unitE) = .ok s1 :=
-        stmt_assign_ok c ret s1 (gid t) (t := .unit) rfl (by simp [unitE, tyOfT, goTy]) hne hlt
+        stmt_assign_ok c ret s1 (gid t) (t := .unit) rfl (TyIs.exact (by simp [unitE, tyOfT, goTy])) hne hlt
       refine ⟨[(gid cv, .bool)], ⟨s1, h1, s1, hloop, s1, hasg, rfl⟩, fun y hy => ?_⟩
       simp only [skeys, List.map_cons, List.map_nil, List.mem_singleton] at hy; subst hy
       rw [hdeclS]; exact List.mem_cons_self
@@ -728,14 +1160,24 @@ theorem typedC {env : Env} {file : AFile} {G : List String} {c : TCtx} {D : Name
     rw [compileTail_simple env m st (by rfl)]
     exact ⟨[], typedC_simple hl m _ Γ K s rfl hfrag hstd hsc hctx htgt htt, fun y hy => by simp [skeys] at hy⟩
   | .matchE _ _ _ _, m, st, Γ, K, s, _, hstd, _, _, _, _, _ => by simp [stdC] at hstd
-  | .constr _ _ _, m, st, Γ, K, s, _, hstd, _, _, _, _, _ => by simp [stdC] at hstd
-  | .tuple _ _, m, st, Γ, K, s, _, hstd, _, _, _, _, _ => by simp [stdC] at hstd
-  | .array _ _, m, st, Γ, K, s, _, hstd, _, _, _, _, _ => by simp [stdC] at hstd
-  | .cget _ _ _ _, m, st, Γ, K, s, _, hstd, _, _, _, _, _ => by simp [stdC] at hstd
+  | .constr ct args ty, m, st, Γ, K, s, hfrag, hstd, hsc, hctx, hdecl, htgt, htt => by
+    rw [compileTail_simple env m st (by rfl)]
+    exact ⟨[], typedC_simple hl m _ Γ K s rfl hfrag hstd hsc hctx htgt htt, fun y hy => by simp [skeys] at hy⟩
+  | .tuple items ty, m, st, Γ, K, s, hfrag, hstd, hsc, hctx, hdecl, htgt, htt => by
+    rw [compileTail_simple env m st (by rfl)]
+    exact ⟨[], typedC_simple hl m _ Γ K s rfl hfrag hstd hsc hctx htgt htt, fun y hy => by simp [skeys] at hy⟩
+  | .array items ty, m, st, Γ, K, s, hfrag, hstd, hsc, hctx, hdecl, htgt, htt => by
+    rw [compileTail_simple env m st (by rfl)]
+    exact ⟨[], typedC_simple hl m _ Γ K s rfl hfrag hstd hsc hctx htgt htt, fun y hy => by simp [skeys] at hy⟩
+  | .cget a ct idx ty, m, st, Γ, K, s, hfrag, hstd, hsc, hctx, hdecl, htgt, htt => by
+    rw [compileTail_simple env m st (by rfl)]
+    exact ⟨[], typedC_simple hl m _ Γ K s rfl hfrag hstd hsc hctx htgt htt, fun y hy => by simp [skeys] at hy⟩
   | .toDyn _ _ _ _, m, st, Γ, K, s, _, hstd, _, _, _, _, _ => by simp [stdC] at hstd
   | .dynCall _ _ _ _ _, m, st, Γ, K, s, _, hstd, _, _, _, _, _ => by simp [stdC] at hstd
   | .go _ _, m, st, Γ, K, s, _, hstd, _, _, _, _, _ => by simp [stdC] at hstd
-  | .proj _ _ _, m, st, Γ, K, s, _, hstd, _, _, _, _, _ => by simp [stdC] at hstd
+  | .proj a idx ty, m, st, Γ, K, s, hfrag, hstd, hsc, hctx, hdecl, htgt, htt => by
+    rw [compileTail_simple env m st (by rfl)]
+    exact ⟨[], typedC_simple hl m _ Γ K s rfl hfrag hstd hsc hctx htgt htt, fun y hy => by simp [skeys] at hy⟩
 end
 
 /-! ### functions -/
@@ -752,20 +1194,91 @@ theorem findFunc_mkTCtx (F : GFile) (x : String) :
     · have h' : (g.name == x) = false := by simpa using h
       simp only [h', ih]
 
-/-- the typing context of the emitted file knows the callees of the fragment -/
-theorem tlink_of_link {env : Env} {file : AFile} {G : List String} {P : Prog} {F : GFile} (hl : Link env file G P F) :
-    TLink file G (mkTCtx F) := by
-  refine ⟨fun g hg hG hentry hrn => ?_, fun b ps r hb hsig => ?_⟩
-  · obtain ⟨st, hfind, _⟩ := hl.fnGo g hg hG
+theorem findStruct_items : ∀ (items : List Goml.Go.GItem) (n : String) {fs : List (String × GTy)},
+    (Goml.Go.GFile.mk items).structFields n = some fs → ∃ ms, (mkTCtx ⟨items⟩).findStruct n = some (fs, ms)
+  | [], n, fs, h => by simp [Goml.Go.GFile.structFields] at h
+  | it :: rest, n, fs, h => by
+    have ih := fun h' => findStruct_items rest n (fs := fs) h'
+    simp only [TCtx.findStruct, mkTCtx, Goml.Go.GFile.structFields, List.findSome?_cons, List.filterMap_cons] at h ih ⊢
+    cases it with
+    | structDef m fs' ms =>
+      simp only at h ⊢
+      by_cases hm : m = n
+      · subst hm
+        simp only [beq_self_eq_true, if_true, Option.some.injEq] at h
+        subst h
+        exact ⟨ms.map (·.name), by simp [List.find?_cons]⟩
+      · have hm' : (m == n) = false := by simpa using hm
+        simp only [hm', Bool.false_eq_true, if_false] at h
+        obtain ⟨ms', h'⟩ := ih h
+        exact ⟨ms', by simpa [List.find?_cons, hm'] using h'⟩
+    | package _ => simp only at h ⊢; exact ih h
+    | imports _ => simp only at h ⊢; exact ih h
+    | interface _ _ => simp only at h ⊢; exact ih h
+    | «alias» _ _ => simp only at h ⊢; exact ih h
+    | func _ => simp only at h ⊢; exact ih h
+
+theorem findStruct_mkTCtx (F : GFile) (n : String) {fs : List (String × GTy)} (h : F.structFields n = some fs) :
+    ∃ ms, (mkTCtx F).findStruct n = some (fs, ms) := findStruct_items F.items n h
+
+/-- the typing context of the emitted file knows the callees of the fragment, the reference and array helpers and, when
+    the struct declarations carry the field types (`structTyTableOK`, `tupleTyTableOK`), the admitted struct and tuple
+    types -/
+theorem tlink_of_link {env : Env} {file : AFile} {G : List String} {P : Prog} {F : GFile} (hl : Link env file G P F)
+    (hT : (goodStructs env).all (structTyTableOK env F) = true)
+    (hT2 : (collectRuntimeTypes file).tuples.all (tupleTyTableOK env F) = true) : TLink env file G (mkTCtx F) := by
+  refine ⟨?fn, ?builtin, hl.ty.closed, ?structs, ?refs, ?arrs, ?tups⟩
+  case fn =>
+    intro g hg hG hentry hrn
+    obtain ⟨st, hfind, _⟩ := hl.fnGo g hg hG
     have hname : fnName g.name = vn g.name := by
       simp only [fnName, hentry, Bool.false_eq_true, if_false]; unfold vn; rw [hrn]
     rw [findFunc_mkTCtx, ← hname, hfind]
     simp [compileFn_shape, List.map_map, Function.comp_def]
-  · rw [findFunc_mkTCtx]
+  case builtin =>
+    intro b ps r hb hsig
+    rw [findFunc_mkTCtx]
     simp only [builtinNames, List.mem_cons, List.mem_singleton, List.not_mem_nil, or_false] at hb
     rcases hb with rfl | rfl | rfl | rfl | rfl | rfl | rfl | rfl | rfl | rfl | rfl | rfl | rfl <;>
       (simp only [builtinSig, Option.some.injEq, Prod.mk.injEq] at hsig; obtain ⟨hp, hr⟩ := hsig; subst hp; subst hr
        rw [hl.rt.rt _ _ rfl]; rfl)
+  case structs =>
+    intro n d hn hd
+    have := List.all_eq_true.mp hT n hn
+    simp only [structTyTableOK, hd] at this
+    cases hsf : F.structFields (gid n) with
+    | none => rw [hsf] at this; cases this
+    | some decl =>
+      rw [hsf] at this; simp only at this
+      have := fieldsBeqG_eq _ _ this
+      subst this
+      exact findStruct_mkTCtx F (gid n) hsf
+  case refs =>
+    intro e he
+    obtain ⟨h1, h2, h3, _⟩ := hl.refGo e he
+    simp only [findFunc_mkTCtx, h1, h2, h3, Option.map_some]
+    simp [refFn, refGetFn, refSetFn, unitE]
+  case arrs =>
+    intro len e he
+    obtain ⟨h1, h2⟩ := hl.arrGo len e he
+    simp only [findFunc_mkTCtx, h1, h2, Option.map_some]
+    simp [arrGetFn, arrSetFn, i32]
+  case tups =>
+    intro ts hts
+    refine ⟨(hl.tupGo ts hts).nodup, ?_⟩
+    simp only [tupleTyOK, Bool.and_eq_true, List.any_eq_true] at hts
+    obtain ⟨hval, x, hx, hbeq⟩ := hts
+    have hxe : x = .tuple ts := ((Goml.Mono.tyBeq_iff _ _).mp hbeq).symm
+    subst hxe
+    have htb := List.all_eq_true.mp hT2 _ hx
+    simp only [tupleTyTableOK, hval, Bool.not_true, Bool.false_or] at htb
+    cases hsf : F.structFields (goTypeNameFor (.tuple ts)) with
+    | none => rw [hsf] at htb; cases htb
+    | some decl =>
+      rw [hsf] at htb; simp only at htb
+      have := fieldsBeqG_eq _ _ htb
+      subst this
+      exact findStruct_mkTCtx F _ hsf
 
 theorem endsInRet_append (a : List GStmt) (e : Option GExpr) : endsInRet (a ++ [.ret e]) = true := by
   induction a with
@@ -798,8 +1311,8 @@ theorem lookupTy_mem' {Γ : Ctx} {x : String} {t : Ty} (h : lookupTy Γ x = some
 
 /-- **T2, typing half, at function level**: the function `compile_fn` builds for a stage (a) function that passes the
     local checks of the fragment is well typed (`GoTyping.fnOKT`) in a typing context that knows its callees -/
-theorem fn_typed {env : Env} {file : AFile} {G : List String} {c : TCtx} {st : St} {g : AFn} (hl : TLink file G c)
-    (hlocal : localOK env file G st g = true) (hstd : stdFn g = true) : fnOKT c (compileFn env st g).1 = .ok () := by
+theorem fn_typed {env : Env} {file : AFile} {G : List String} {c : TCtx} {st : St} {g : AFn} (hl : TLink env file G c)
+    (hlocal : localOK env file G st g = true) (hstd : stdFn env file g = true) : fnOKT c (compileFn env st g).1 = .ok () := by
   simp only [localOK, srcLocalOK, goLocalOK, Bool.and_eq_true, Bool.not_eq_true', compileFn_shape] at hlocal
   obtain ⟨⟨⟨⟨hps, hrs⟩, hfrag⟩, hret⟩, ⟨⟨hscoped, hblank⟩, hcallees⟩, hfnames⟩ := hlocal
   simp only [stdFn, Bool.and_eq_true] at hstd
@@ -888,7 +1401,7 @@ theorem fn_typed {env : Env} {file : AFile} {G : List String} {c : TCtx} {st : S
   have hlret : lookupS (Dl ++ s1) (gid retName) = some (goTy g.ret) := by
     rw [lookupS_append_right (fun hk => (hdecl.top _ (hkD _ hk)).1 (by rw [hk1]; exact List.mem_cons_self))]; exact lookupS_cons_self _ _ _
   have hretst : stmtOKT c (some (goTy g.ret)) (Dl ++ s1) (.ret (some (.var (gid retName) (goTy g.ret)))) = .ok (Dl ++ s1) := by
-    simp only [stmtOKT, tyOfT, hlret, R.bind, assignable_std c hrstd, if_true]
+    simp only [stmtOKT, tyOfT, hlret, R.bind, assignable_of_norm c rfl, if_true]
   have hbody : blockOKT c (some (goTy g.ret)) s0
       (.varDecl (gid retName) (goTy g.ret) none :: (S ++ [.ret (some (.var (gid retName) (goTy g.ret)))])) = .ok () := by
     simp only [blockOKT, h1]
